@@ -289,12 +289,10 @@ class SeqView:
         return z3.Select(items, k)
 
     def distinct(self):
-        i, j = z3.Ints("di dj")
-        return z3.ForAll([i, j], z3.Implies(z3.And(0 <= i, i < j, j < self.len), self.item_term(i) != self.item_term(j)))
+        return self._spec.forall("di dj", lambda i, j: z3.Implies(z3.And(0 <= i, i < j, j < self.len), self.item_term(i) != self.item_term(j)))
 
     def contains_id(self, idt):
-        k = z3.Int("ck")
-        return z3.Exists([k], z3.And(0 <= k, k < self.len, Z.Val.id(self.item_term(k)) == idt))
+        return self._spec.exists("ck", lambda k: z3.And(0 <= k, k < self.len, Z.Val.id(self.item_term(k)) == idt))
 
     __hash__ = None
 
@@ -415,10 +413,22 @@ class Spec:
 
     def forall(self, names, body):
         vs = [z3.Int(n) for n in names.split()]
+        B = getattr(self.ctx.E, "bounded", None)
+        if B is not None:
+            # refutation mode: every sequence has at most B items and every quantified index is guarded by a range
+            # inside [0, len], so the quantifier equals the finite conjunction over 0..B
+            import itertools
+
+            return z3.And(*[_b(body(*[z3.IntVal(k) for k in ks])) for ks in itertools.product(range(B + 1), repeat=len(vs))])
         return z3.ForAll(vs, _b(body(*vs)))
 
     def exists(self, names, body):
         vs = [z3.Int(n) for n in names.split()]
+        B = getattr(self.ctx.E, "bounded", None)
+        if B is not None:
+            import itertools
+
+            return z3.Or(*[_b(body(*[z3.IntVal(k) for k in ks])) for ks in itertools.product(range(B + 1), repeat=len(vs))])
         return z3.Exists(vs, _b(body(*vs)))
 
     def event(self, kind, a=None, b=None, c=None, d=None):
